@@ -256,7 +256,7 @@ Inv_AutoPlanSound == (phase \in {"planned", "executed", "done"} /\ cfg.method = 
 
 \* spec -> code: every finished behaviour is printed and replayed into the real groupby_reduce (harness/composecase.py)
 Emit == (phase \in {"done", "refused"} /\ InScope) =>
-          PrintT(<<"BEH", vals, labs, labs2, cuts, cfg, fact.groups, plan, result, Planner.method, Sizes, fact.codes, EngineChosen>>)
+          PrintT(<<"BEH", vals, labs, labs2, cuts, cfg, fact.groups, plan, result, Planner.method, Sizes, fact.codes, EngineChosen, Cardinality(Planner.cohorts)>>)
 
 \* vacuity witnesses (each must be VIOLATED by some behaviour)
 W_Cohorts == ~(phase = "done" /\ plan.method = "cohorts")
